@@ -77,6 +77,127 @@ def flavour_params(rng, flavour, Q, K, mode, bias, hidden, scale):
             "b": gen(hidden) if bias else None, "v": gen(hidden)}
 
 
+FMAX = {"float32": 3.4028234663852886e38, "float64": 1.7976931348623157e308}
+
+
+def _sgn(scale):
+    return -1.0 if float(parse_frac(scale)) < 0 else 1.0
+
+
+def large_flavour_params(rng, flavour, Q, K, mag, bias, hidden, scale, dtype):
+    """Parameters of one single-head attention for the LARGE-MAGNITUDE stream: all integer valued
+    (concat: pre-activations are multiples of 32, so tanh is exactly -1, 0 or 1 in float32 and in
+    double), so that scores of size 1e4 .. 1e12 are exact in the tensor's dtype.
+
+    modes: ``offset``  every score = one large negative constant + an ordinary-size part
+           ``opposed`` query and keys point in opposite directions (all scores strongly negative)
+           ``random``  large entries of random sign (scores of both signs, softmax nearly one-hot)
+           ``extreme`` scores equal to the most negative / most positive finite number of the dtype
+    """
+    mode, M, M2 = mag["mode"], mag["M"], mag["M2"]
+    fi = lambda n, lo, hi: [float(x) for x in _ints(rng, n, lo, hi)]  # noqa: E731
+    if flavour == "dot":
+        return {"kind": "dot", "scale": float(parse_frac(scale))}
+    if flavour == "general":
+        if mode == "opposed":
+            W, b = _mat(fi(Q * K, 0, 2), Q, K), [-x for x in fi(Q, 0, 2)]
+        else:
+            W, b = _mat(fi(Q * K, -2, 2), Q, K), fi(Q, -2, 2)
+        if mode in ("offset", "extreme"):
+            # coordinate 0 of the key reaches coordinate 0 of W key (and nothing else)
+            for r in range(Q):
+                W[r][0] = 0.0
+            W[0] = [float(rng.randint(1, 2)) if mode == "offset" else 1.0] + [0.0] * (K - 1)
+            if mode == "extreme":
+                b[0] = 0.0
+        return {"kind": "general", "W": W, "b": b if bias else None}
+    # concat: W and b multiples of 32 (integer inputs => tanh saturates exactly or is tanh(0) = 0)
+    V = float(FMAX[dtype]) if mode == "extreme" else float(M * M2)
+    if mode == "opposed":
+        W = _mat([32 * x for x in fi(hidden * (Q + K), 0, 2)], hidden, Q + K)
+        b = [32 * x for x in fi(hidden, 0, 2)]
+        v = [-float(rng.randint(int(V) // 2, int(V))) for _ in range(hidden)]
+    else:
+        W = _mat([32 * x for x in fi(hidden * (Q + K), -2, 2)], hidden, Q + K)
+        b = [32 * x for x in fi(hidden, -2, 2)]
+        v = fi(hidden, -int(V), int(V)) if mode == "random" else fi(hidden, -3, 3)
+    if mode == "offset":
+        # unit 0: tanh(32 * w * q_0 + b_0) = 1 for every key; v_0 = -V is the common offset
+        W[0] = [32.0 * rng.randint(1, 2)] + [0.0] * (Q - 1 + K)
+        b[0] = 32.0 * rng.randint(0, 2)
+        v[0] = -V
+    elif mode == "extreme":
+        # unit 0 looks at coordinate 0 of the key only: tanh(32 * k_0) in {-1, 0, 1}
+        W[0] = [0.0] * Q + [32.0] + [0.0] * (K - 1)
+        b[0] = 0.0
+        v = [-V] + [0.0] * (hidden - 1)
+    return {"kind": "concat", "W": W, "b": b if bias else None, "v": v}
+
+
+def large_qk(rng, case, qs, ks, flavour, lim):
+    """Integer valued query / key tensors (python lists, row-major) of the large-magnitude stream."""
+    mag = case["mag"]
+    mode, M, M2 = mag["mode"], mag["M"], mag["M2"]
+    s = _sgn(case.get("scale", "1")) if flavour == "dot" else 1.0
+    nq, nk, Q, K = _numel(qs), _numel(ks), qs[-1], ks[-1]
+    if mode == "opposed":
+        q = [float(x) for x in _ints(rng, nq, M, 2 * M)]
+        ksign = 1.0 if flavour == "concat" else -s
+        k = [ksign * x for x in _ints(rng, nk, M2, 2 * M2)]
+    elif mode == "random":
+        q = [float(x) for x in _ints(rng, nq, -2 * M, 2 * M)]
+        k = [float(x) for x in _ints(rng, nk, -2 * M2, 2 * M2)]
+    else:
+        q = [float(x) for x in _ints(rng, nq, -lim, lim)]
+        k = [float(x) for x in _ints(rng, nk, -lim, lim)]
+        if mode == "offset":
+            for j in range(0, nq, Q):
+                q[j] = float(M)
+            if flavour != "concat":
+                for j in range(0, nk, K):
+                    k[j] = -s * M2
+        else:  # extreme
+            big = FMAX[case.get("dtype", "float32")]
+            if flavour != "concat":
+                for j in range(nq):
+                    q[j] = big if j % Q == 0 else 0.0
+                for j in range(0, nk, K):
+                    k[j] = rng.choice([-s, -s, -s, 0.0, s])
+            else:
+                for j in range(0, nk, K):
+                    k[j] = rng.choice([1.0, 1.0, 1.0, 0.0, -1.0])
+    return q, k
+
+
+def eff_dims(case):
+    """(d_v, out_size) of a multi-headed case; the constructor's defaults when not passed."""
+    dv = max(1, case["D"] // case["H"]) if case.get("dv_default") else case["dv"]
+    O = case["D"] if case.get("O_default") else case["O"]
+    return dv, O
+
+
+def _tdtype(case):
+    import torch
+    return torch.float64 if case.get("dtype") == "float64" else torch.float32
+
+
+def _layout(x, how, rng):
+    """The same values in a tensor that is not contiguous in memory."""
+    import torch
+    if how is None or x is None or x.numel() == 0:
+        return x
+    if how == "transposed" and x.dim() >= 2:
+        a = rng.randrange(x.dim() - 1)
+        return x.transpose(a, -1).contiguous().transpose(a, -1)
+    # every second element of a buffer twice as long
+    buf = torch.zeros(list(x.shape[:-1]) + [2 * x.shape[-1]], dtype=x.dtype) if x.dim() else None
+    if buf is None:
+        return x
+    y = buf[..., ::2]
+    y.copy_(x)
+    return y
+
+
 def case_shapes(case):
     E, nb, T = case["E"], case["nb"], case["T"]
 
@@ -102,9 +223,18 @@ def make_inputs(case):
     rng = random.Random(case["seed"])
     qs, ks, vs, ms = case_shapes(case)
     lim = case.get("lim", 3)
-    q = torch.tensor(_ints(rng, _numel(qs), -lim, lim), dtype=torch.float32).reshape(qs)
-    k = torch.tensor(_ints(rng, _numel(ks), -lim, lim), dtype=torch.float32).reshape(ks)
+    mag = case.get("mag")
+    dt = _tdtype(case)
+    if mag:
+        inner_fl = case["flavour"]
+        ql, kl = large_qk(rng, case, qs, ks, inner_fl, lim)
+        q = torch.tensor(ql, dtype=torch.float64).reshape(qs)
+        k = torch.tensor(kl, dtype=torch.float64).reshape(ks)
+    else:
+        q = torch.tensor(_ints(rng, _numel(qs), -lim, lim), dtype=torch.float32).reshape(qs)
+        k = torch.tensor(_ints(rng, _numel(ks), -lim, lim), dtype=torch.float32).reshape(ks)
     v = torch.tensor(_ints(rng, _numel(vs), -9, 9), dtype=torch.float32).reshape(vs)
+    q, k, v = q.to(dt), k.to(dt), v.to(dt)
     mask = None
     if ms is not None:
         if case["mask"] == "all":
@@ -124,44 +254,88 @@ def make_inputs(case):
                         mm[r, rng.randrange(ms[ax])] = False
                 mask = mm.reshape([s for j, s in enumerate(ms) if j != ax] + [ms[ax]]).movedim(-1, ax).contiguous()
     params = None
+    dtn = case.get("dtype", "float32")
     if case["kind"] == "single":
-        params = flavour_params(rng, case["flavour"], case["Q"], case["K"], case["pmode"],
-                                case.get("bias", False), case.get("hidden", 2), case.get("scale", "1"))
+        if mag:
+            params = large_flavour_params(rng, case["flavour"], case["Q"], case["K"], mag,
+                                          case.get("bias", False), case.get("hidden", 2),
+                                          case.get("scale", "1"), dtn)
+        else:
+            params = flavour_params(rng, case["flavour"], case["Q"], case["K"], case["pmode"],
+                                    case.get("bias", False), case.get("hidden", 2), case.get("scale", "1"))
     elif case["kind"] == "multi":
-        H, dq, dk, dv = case["H"], case["dq"], case["dk"], case["dv"]
-        gen = (lambda n: _dyadic(rng, n)) if case["pmode"] != "float" else (lambda n: _floats(rng, n))
-        O = case["O"]
-        params = {
-            "H": H, "dq": dq, "dk": dk, "dv": dv,
-            "WQ": _mat(gen(H * dq * case["Q"]), H * dq, case["Q"]),
-            "WK": _mat(gen(H * dk * case["K"]), H * dk, case["K"]),
-            "WV": _mat(gen(H * dv * case["D"]), H * dv, case["D"]),
-            "WC": _mat(gen(O * H * dv), O, H * dv),
-            "bQ": gen(H * dq), "bK": gen(H * dk), "bV": gen(H * dv), "bC": gen(O),
-            "inner": flavour_params(rng, case["flavour"], dq, dk, case["pmode"],
-                                    case.get("bias", False), case.get("hidden", 2), case.get("scale", "1")),
-        }
+        H, dq, dk = case["H"], case["dq"], case["dk"]
+        dv, O = eff_dims(case)
+        Q, K = case["Q"], case["K"]
+        if mag:
+            mode = mag["mode"]
+            fi = lambda n, lo, hi: [float(x) for x in _ints(rng, n, lo, hi)]  # noqa: E731
+            if mode == "opposed":
+                WQ, WK = _mat(fi(H * dq * Q, 1, 2), H * dq, Q), _mat(fi(H * dk * K, 1, 2), H * dk, K)
+                bQ, bK = fi(H * dq, 0, 2), [(1.0 if case["flavour"] == "concat" else -1.0) * x
+                                            for x in fi(H * dk, 0, 2)]
+            else:
+                WQ, WK = _mat(fi(H * dq * Q, -1, 1), H * dq, Q), _mat(fi(H * dk * K, -1, 1), H * dk, K)
+                bQ, bK = fi(H * dq, -2, 2), fi(H * dk, -2, 2)
+            if mode == "offset":
+                # coordinate 0 of query / key goes to coordinate 0 of every head (and nowhere else)
+                for W_, d_, n_ in ((WQ, dq, Q), (WK, dk, K)):
+                    for r in range(H * d_):
+                        W_[r][0] = 0.0
+                    for h in range(H):
+                        W_[h * d_] = [1.0] + [0.0] * (n_ - 1)
+            gen = lambda n: fi(n, -2, 2)  # noqa: E731
+            params = {"H": H, "dq": dq, "dk": dk, "dv": dv, "WQ": WQ, "WK": WK,
+                      "WV": _mat(gen(H * dv * case["D"]), H * dv, case["D"]),
+                      "WC": _mat(gen(O * H * dv), O, H * dv),
+                      "bQ": bQ, "bK": bK, "bV": gen(H * dv), "bC": gen(O),
+                      "inner": large_flavour_params(rng, case["flavour"], dq, dk, mag, case.get("bias", False),
+                                                    case.get("hidden", 2), case.get("scale", "1"), dtn)}
+        else:
+            gen = (lambda n: _dyadic(rng, n)) if case["pmode"] != "float" else (lambda n: _floats(rng, n))
+            params = {
+                "H": H, "dq": dq, "dk": dk, "dv": dv,
+                "WQ": _mat(gen(H * dq * case["Q"]), H * dq, case["Q"]),
+                "WK": _mat(gen(H * dk * case["K"]), H * dk, case["K"]),
+                "WV": _mat(gen(H * dv * case["D"]), H * dv, case["D"]),
+                "WC": _mat(gen(O * H * dv), O, H * dv),
+                "bQ": gen(H * dq), "bK": gen(H * dk), "bV": gen(H * dv), "bC": gen(O),
+                "inner": flavour_params(rng, case["flavour"], dq, dk, case["pmode"],
+                                        case.get("bias", False), case.get("hidden", 2), case.get("scale", "1")),
+            }
+    how = case.get("layout")
+    if how == "expanded":
+        # the explicitly expanded tensors as stride-0 views
+        i, ET, Eb = geometry(case, q, k, v, mask)
+        q = q.broadcast_to(Eb + [q.shape[-1]])
+        k = k.broadcast_to(ET + [k.shape[-1]])
+        v = v.broadcast_to(ET + [v.shape[-1]])
+        mask = None if mask is None else mask.broadcast_to(ET)
+    elif how is not None:
+        lrng = random.Random(case["seed"] ^ 0xA11)
+        q, k, v, mask = (_layout(x, how, lrng) for x in (q, k, v, mask))
     return q, k, v, mask, params
 
 
-def make_single(fl, Q, K, dim):
+def make_single(fl, Q, K, dim, dt=None):
     import torch
     from pydrobert.torch.modules import (ConcatSoftAttention, DotProductSoftAttention,
                                          GeneralizedDotProductSoftAttention)
+    dt = dt or torch.float32
     with torch.no_grad():
         if fl["kind"] == "dot":
             return DotProductSoftAttention(Q, dim, scale_factor=fl["scale"])
         if fl["kind"] == "general":
-            m = GeneralizedDotProductSoftAttention(Q, K, dim, bias=fl["b"] is not None)
-            m.weight.copy_(torch.tensor(fl["W"], dtype=torch.float32))
+            m = GeneralizedDotProductSoftAttention(Q, K, dim, bias=fl["b"] is not None).to(dt)
+            m.weight.copy_(torch.tensor(fl["W"], dtype=dt))
             if fl["b"] is not None:
-                m.bias.copy_(torch.tensor(fl["b"], dtype=torch.float32))
+                m.bias.copy_(torch.tensor(fl["b"], dtype=dt))
             return m
-        m = ConcatSoftAttention(Q, K, dim, bias=fl["b"] is not None, hidden_size=len(fl["v"]))
-        m.weight.copy_(torch.tensor(fl["W"], dtype=torch.float32))
+        m = ConcatSoftAttention(Q, K, dim, bias=fl["b"] is not None, hidden_size=len(fl["v"])).to(dt)
+        m.weight.copy_(torch.tensor(fl["W"], dtype=dt))
         if fl["b"] is not None:
-            m.bias.copy_(torch.tensor(fl["b"], dtype=torch.float32))
-        m.v.copy_(torch.tensor(fl["v"], dtype=torch.float32))
+            m.bias.copy_(torch.tensor(fl["b"], dtype=dt))
+        m.v.copy_(torch.tensor(fl["v"], dtype=dt))
         return m
 
 
@@ -169,20 +343,23 @@ def make_multi(case, params):
     import torch
     from pydrobert.torch.modules import MultiHeadedAttention
     f = case["flags"]
+    dt = _tdtype(case)
     # MultiHeadedAttention.__init__ calls reset_parameters() on the wrapped attention, so the
     # wrapped attention's parameters are (re)loaded after construction
-    inner = make_single(params["inner"], params["dq"], params["dk"], case["dim"])
-    m = MultiHeadedAttention(case["Q"], case["K"], case["D"], params["H"], inner, out_size=case["O"],
-                             d_v=params["dv"], bias_WQ=f["wq"], bias_WK=f["wk"], bias_WV=f["wv"],
-                             bias_WC=f["wc"])
-    inner2 = make_single(params["inner"], params["dq"], params["dk"], case["dim"])
+    inner = make_single(params["inner"], params["dq"], params["dk"], case["dim"], dt)
+    m = MultiHeadedAttention(case["Q"], case["K"], case["D"], params["H"], inner,
+                             out_size=None if case.get("O_default") else case["O"],
+                             d_v=None if case.get("dv_default") else params["dv"],
+                             bias_WQ=f["wq"], bias_WK=f["wk"], bias_WV=f["wv"],
+                             bias_WC=f["wc"]).to(dt)
+    inner2 = make_single(params["inner"], params["dq"], params["dk"], case["dim"], dt)
     m.single_head_attention.load_state_dict(inner2.state_dict())
     with torch.no_grad():
         for name in ("Q", "K", "V", "C"):
             lin = getattr(m, "W" + name)
-            lin.weight.copy_(torch.tensor(params["W" + name], dtype=torch.float32))
+            lin.weight.copy_(torch.tensor(params["W" + name], dtype=dt))
             if lin.bias is not None:
-                lin.bias.copy_(torch.tensor(params["b" + name], dtype=torch.float32))
+                lin.bias.copy_(torch.tensor(params["b" + name], dtype=dt))
     return m
 
 
@@ -292,14 +469,46 @@ class C20(PropertyCheck):
     thorough_budget_s = 700
 
     # ---------------------------------------------------------------- generators
-    def _single(self, rng, flavour, n, nb, neg, tier, mask=None, pattern=None):
+    def _mag(self, rng, mode, dtype, multi):
+        """Magnitudes of the large stream, small enough for every score to be an exact integer in `dtype`."""
+        if mode == "extreme":
+            return {"mode": mode, "M": 0, "M2": 0}
+        if dtype == "float64" and rng.random() < 0.6:
+            lo, hi = 30000, 1000000   # scores down to about -1e12 .. -1e13
+        elif mode == "offset":
+            lo, hi = 100, 300         # scores about -1e4 .. -2e5
+        elif multi:
+            lo, hi = 30, 50
+        else:
+            lo, hi = 100, 200
+        return {"mode": mode, "M": rng.randint(lo, hi), "M2": rng.randint(lo, hi)}
+
+    def _extras(self, rng, c, tier, mode=None, dtype=None, layout=False):
+        """dtype / memory layout / large-magnitude fields of a case (in place)."""
+        dtype = dtype or ("float64" if rng.random() < 0.2 else "float32")
+        if dtype != "float32":
+            c["dtype"] = dtype
+        if layout is None:
+            layout = rng.random() < 0.2
+        if layout:
+            c["layout"] = rng.choice(["strided", "transposed", "expanded"])
+        if mode is not None:
+            c["mag"] = self._mag(rng, mode, dtype, c["kind"] == "multi")
+            c["pmode"] = "int"
+            if c["flavour"] == "dot":
+                c["scale"] = rng.choice(["1", "1/2", "-1"] + ([] if mode == "extreme" else ["2"]))
+        return c
+
+    def _single(self, rng, flavour, n, nb, neg, tier, mask=None, pattern=None, wide=False):
         nc = n - 2 - nb  # key has n axes: nb + 1 (T) + nc + 1 (K)
         big = tier != "quick"
         E = [rng.randint(1, 3 if big else 2) + (1 if rng.random() < 0.3 else 0) for _ in range(nb + nc)]
-        while _numel(E) > (24 if big else 12):
+        while _numel(E) > (4 if wide else 24 if big else 12):
             E[rng.randrange(len(E))] = 1
         T = rng.choice([1, 2, 3, 4, 5] + ([6, 8] if big else []))
         K = rng.randint(1, 3)
+        if wide:  # long sequences, long vectors
+            T, K = rng.randint(16, 64), rng.randint(8, 16)
         Q = K if flavour == "dot" else rng.randint(1, 3)
         nE = len(E)
 
@@ -325,6 +534,7 @@ class C20(PropertyCheck):
             "mT": rng.random() < 0.9, "vT": rng.random() < 0.93, "mdrop": rng.choice([0, 0, 0, 1, 2]),
             "mask": mask, "pmode": pm, "bias": rng.random() < 0.5, "hidden": rng.randint(1, 3),
             "scale": rng.choice(["1", "1/2", "1/4", "2", "-1"]), "seed": rng.randrange(1 << 30),
+            **({"lim": 1} if wide else {}),
         }
 
     def _multi(self, rng, flavour, flags, H, batch_eq, tier, layout=None):
@@ -359,6 +569,9 @@ class C20(PropertyCheck):
             "pmode": rng.choice(["dyadic", "dyadic", "float"]), "bias": rng.random() < 0.5,
             "hidden": rng.randint(1, 2), "scale": rng.choice(["1", "1/2"]), "seed": rng.randrange(1 << 30),
             "lim": 2,
+            # the constructor's defaults: d_v = max(1, value_size // num_heads), out_size = value_size
+            **({"dv_default": True} if rng.random() < 0.25 else {}),
+            **({"O_default": True} if rng.random() < 0.25 else {}),
         }
 
     def _shape_cases(self, rng, tier):
@@ -417,7 +630,7 @@ class C20(PropertyCheck):
                     dim = nb  # negative dims are rejected by the MultiHeadedAttention constructor
                     if defect in ("dim_lo", "dim_m1"):
                         defect = "none"
-                c = dict(base, multi=multi, defect=defect, query_size=qsz, key_size=ksz,
+                c = dict(base, flavour=rng.choice(FLAVOURS), multi=multi, defect=defect, query_size=qsz, key_size=ksz,
                          value_size=(D + 1 if defect == "v_size" else D) if multi else None,
                          dim=dim, q=q, k=k, v=v, m=m if (defect == "mask" or rng.random() < 0.8) else None,
                          seed=rng.randrange(1 << 30))
@@ -445,16 +658,43 @@ class C20(PropertyCheck):
                     yield self._multi(rng, flavour, flags, rng.randint(2, 3), batch_eq, tier, layout="TB")
         for c in self._shape_cases(rng, tier):
             yield c
+        # large-magnitude stream: every flavour (single and as the heads of multi-headed attention) x
+        # every mode x both dtypes, always with a mask that removes something
+        for _ in range(reps):
+            for flavour in FLAVOURS:
+                for mode in ("offset", "opposed", "random", "extreme"):
+                    for dtype in ("float32", "float64"):
+                        for rep in range(2):
+                            n = rng.choice([2, 3, 3, 4])
+                            nb = rng.randint(0, n - 2)
+                            c = self._single(rng, flavour, n, nb, rng.random() < 0.3, tier,
+                                             mask="some" if rep == 0 else None)
+                            yield self._extras(rng, c, tier, mode=mode, dtype=dtype, layout=None)
+                        if mode != "extreme":
+                            flags = {k: rng.random() < 0.5 for k in ("wq", "wk", "wv", "wc")}
+                            c = self._multi(rng, flavour, flags, rng.randint(1, 3), rng.random() < 0.5, tier)
+                            c["mask"] = "some"
+                            yield self._extras(rng, c, tier, mode=mode, dtype=dtype, layout=None)
+        # long sequences / long vectors
+        for _ in range(2 * reps):
+            for flavour in FLAVOURS:
+                n = rng.choice([2, 3, 4])
+                yield self._extras(rng, self._single(rng, flavour, n, rng.randint(0, n - 2), False, tier, wide=True),
+                                   tier, layout=None)
         # free random stream
         n_free = {"quick": 500, "thorough": 5000, "search": 3000}[tier]
+        modes = ("offset", "opposed", "random", "extreme")
         for _ in range(n_free):
+            mode = rng.choice(modes) if rng.random() < 0.12 else None
             if rng.random() < 0.65:
                 n = rng.choice([2, 3, 3, 4, 5])
                 nb = rng.randint(0, n - 2)
-                yield self._single(rng, rng.choice(FLAVOURS), n, nb, rng.random() < 0.4, tier)
+                c = self._single(rng, rng.choice(FLAVOURS), n, nb, rng.random() < 0.4, tier)
             else:
                 flags = {k: rng.random() < 0.5 for k in ("wq", "wk", "wv", "wc")}
-                yield self._multi(rng, rng.choice(FLAVOURS), flags, rng.randint(1, 3), rng.random() < 0.5, tier)
+                c = self._multi(rng, rng.choice(FLAVOURS), flags, rng.randint(1, 3), rng.random() < 0.5, tier)
+                mode = None if mode == "extreme" else mode
+            yield self._extras(rng, c, tier, mode=mode, layout=None)
 
     # ---------------------------------------------------------------- implementation side
     def run_impl(self, case):
@@ -466,19 +706,28 @@ class C20(PropertyCheck):
 
     def _run_shape(self, case):
         import torch
-        from pydrobert.torch.modules import (DotProductSoftAttention, GeneralizedDotProductSoftAttention,
-                                             MultiHeadedAttention)
+        from pydrobert.torch.modules import (ConcatSoftAttention, DotProductSoftAttention,
+                                             GeneralizedDotProductSoftAttention, MultiHeadedAttention)
+        fl = case.get("flavour", "general")
+        if fl == "dot" and case["key_size"] != case["query_size"]:
+            fl = "general"  # DotProductSoftAttention has a single size
         q = torch.zeros(case["q"])
         k = torch.zeros(case["k"])
         v = torch.ones(case["v"])
         m = None if case["m"] is None else torch.ones(case["m"], dtype=torch.bool)
         if case["multi"]:
-            inner = DotProductSoftAttention(1, case["dim"])
+            inner = make_single({"kind": "dot", "scale": 1.0} if fl == "dot" else
+                                {"kind": "general", "W": [[1.0]], "b": None} if fl == "general" else
+                                {"kind": "concat", "W": [[1.0, 1.0]], "b": None, "v": [1.0]}, 1, 1, case["dim"])
             mod = MultiHeadedAttention(case["query_size"], case["key_size"], case["value_size"], 1, inner,
                                        d_v=case["value_size"])
             with torch.no_grad():
                 mod.WV.weight.copy_(torch.eye(case["value_size"]))
                 mod.WC.weight.copy_(torch.eye(case["value_size"]))
+        elif fl == "dot":
+            mod = DotProductSoftAttention(case["query_size"], case["dim"])
+        elif fl == "concat":
+            mod = ConcatSoftAttention(case["query_size"], case["key_size"], case["dim"], hidden_size=2)
         else:
             mod = GeneralizedDotProductSoftAttention(case["query_size"], case["key_size"], case["dim"])
         try:
@@ -499,7 +748,7 @@ class C20(PropertyCheck):
             # the output is a projection of the heads; scale by the largest |W| row sums involved
             scale = max(1.0, float(out.abs().max())) if out.numel() else 1.0
         D = out.shape[-1] if out.dim() else 0
-        expected = Eb + [case["O"] if case["kind"] == "multi" else v.shape[-1]]
+        expected = Eb + [eff_dims(case)[1] if case["kind"] == "multi" else v.shape[-1]]
         if list(out.shape) != expected:
             fails.append([f"output shape {list(out.shape)} != broadcast batch shape + value size {expected}",
                           "C20.shape"])
@@ -542,9 +791,10 @@ class C20(PropertyCheck):
         # blindness: masked keys / values replaced by random finite values
         if not bool(mfull.all()):
             for trial in range(2):
-                big = 10.0 ** rng.choice([0, 1, 3])
-                kr = torch.tensor(_floats(rng, kf.numel(), big), dtype=torch.float32).reshape(kf.shape)
-                vr = torch.tensor(_floats(rng, vf.numel(), big * 10), dtype=torch.float32).reshape(vf.shape)
+                # ordinary, large and huge (finite) replacements
+                big = 10.0 ** (rng.choice([0, 1, 3]) if trial == 0 else rng.choice([3, 30]))
+                kr = torch.tensor(_floats(rng, kf.numel(), big), dtype=kf.dtype).reshape(kf.shape)
+                vr = torch.tensor(_floats(rng, vf.numel(), big * 10), dtype=vf.dtype).reshape(vf.shape)
                 k2 = torch.where(mfull.unsqueeze(-1), kf, kr)
                 v2 = torch.where(mfull.unsqueeze(-1), vf, vr)
                 try:
@@ -574,7 +824,7 @@ class C20(PropertyCheck):
     def _run_single(self, case):
         import torch
         q, k, v, mask, params = make_inputs(case)
-        mod = make_single(params, case["Q"], case["K"], case["dim"])
+        mod = make_single(params, case["Q"], case["K"], case["dim"], _tdtype(case))
         store = []
         with torch.no_grad():
             with capture_softmax(store):
@@ -621,14 +871,57 @@ class C20(PropertyCheck):
         q, k, v, mask, params = make_inputs(case)
         mod = make_multi(case, params)
         H, dq, dk, dv = params["H"], params["dq"], params["dk"], params["dv"]
+        O = eff_dims(case)[1]
         obs = {"has_bias": {n: getattr(mod, "W" + n.upper()[1]).bias is not None for n in ("wq", "wk", "wv", "wc")},
                "checks": []}
+        if [mod.d_v, mod.out_size] != [dv, O]:
+            obs["checks"].append([f"d_v, out_size = {[mod.d_v, mod.out_size]}, documented {[dv, O]} "
+                                  f"(defaults: max(1, value_size // num_heads), value_size)", "C20.multihead.defaults"])
+            return obs
+        store, inner_io = [], []
+        hook = mod.single_head_attention.register_forward_hook(
+            lambda m_, a, o: inner_io.append((a, o)))
         with torch.no_grad():
-            out = mod(q, k, v, mask)
+            try:
+                with capture_softmax(store):
+                    out = mod(q, k, v, mask)
+            finally:
+                hook.remove()
             obs["shape"] = list(out.shape)
             obs["checks"] = self._property_checks(case, mod, q, k, v, mask, out, convex=False)
             i, ET, Eb, qf, kf, vf, mf = expand_all(case, q, k, v, mask)
-            if list(out.shape) == Eb + [case["O"]]:
+            mfull = mf if mf is not None else torch.ones(ET, dtype=torch.bool)
+            # the heads: weights (softmax output, shape (E*, T, F*, H)) and head outputs
+            if len(store) == 1 and len(inner_io) == 1 and list(out.shape) == Eb + [O]:
+                try:
+                    a = store[0].broadcast_to(ET + [H])
+                    mh = mfull.unsqueeze(-1).expand(ET + [H])
+                    if bool((a < 0).any()):
+                        obs["checks"].append(["negative attention weight (heads)", "C20.weights"])
+                    if bool((a.masked_select(~mh) != 0).any()):
+                        obs["checks"].append(["non-zero attention weight of some head on a masked position",
+                                              "C20.weights"])
+                    sm = a.sum(i)
+                    if bool(((sm - 1).abs() > TOL).any()):
+                        obs["checks"].append([f"attention weights of some head sum to "
+                                              f"{sm.reshape(-1)[int(((sm - 1).abs() > TOL).reshape(-1).nonzero()[0])]!r}"
+                                              f" over the sequence axis, not 1", "C20.weights"])
+                    (args, oh) = inner_io[0]
+                    vh = args[2].broadcast_to(ET + [H, dv])
+                    keep = mh.unsqueeze(-1).expand_as(vh)
+                    lo = torch.where(keep, vh, torch.full_like(vh, float("inf"))).amin(i)
+                    hi = torch.where(keep, vh, torch.full_like(vh, float("-inf"))).amax(i)
+                    tolh = TOL * max(1.0, float(vh.abs().max()))
+                    oh = oh.broadcast_to(lo.shape)
+                    bad = (oh < lo - tolh) | (oh > hi + tolh)
+                    if bool(bad.any()):
+                        j = int(bad.reshape(-1).nonzero()[0])
+                        obs["checks"].append([f"head output coordinate {float(oh.reshape(-1)[j])!r} outside "
+                                              f"[min, max] = [{float(lo.reshape(-1)[j])}, {float(hi.reshape(-1)[j])}]"
+                                              f" of the head's kept values", "C20.convex"])
+                except RuntimeError as e:
+                    obs["checks"].append([f"head tensors do not have the documented shapes: {e}"[:200], "C20.shape"])
+            if list(out.shape) == Eb + [O]:
                 obs["out"] = tl2(out.reshape(-1, out.shape[-1]))
                 # composition from the module's own parameters, one head at a time, SAME mask for every head
                 sha = mod.single_head_attention
@@ -740,6 +1033,9 @@ class C20(PropertyCheck):
                 if "scores" in impl:
                     if exact and me.get("scores_exact") is not None:
                         d = self._vec_diff(impl["scores"][n], me["scores_exact"], 1.0, exact=True)
+                    elif case.get("mag"):
+                        # large-magnitude concat: every tanh is exactly -1, 0 or 1, the score an integer sum
+                        d = self._vec_diff(impl["scores"][n], me["scores"], 1.0, exact=True)
                     else:
                         big = max([1.0] + [abs(float(parse_frac(x))) for x in me["scores"]])
                         d = self._vec_diff(impl["scores"][n], me["scores"], big,
@@ -812,12 +1108,20 @@ class C20(PropertyCheck):
             t.append("restriction:inf_at_masked_value->" + ("nan" if impl["inf_masked_value_gives_nan"] else "finite"))
         bc = [n for n in ("bq", "bk", "bv", "bm") if 0 in case[n]]
         t.append("broadcast=" + ("+".join(bc) if bc else "none"))
+        t.append("dtype=" + case.get("dtype", "float32"))
+        t.append("layout=" + (case.get("layout") or "contiguous"))
+        mag = case.get("mag")
+        t.append("magnitude=" + ("ordinary" if not mag else mag["mode"] + (":1e4-1e5" if mag["M"] < 30000 else ":1e9-1e13")
+                                 if mag["mode"] != "extreme" else "extreme:finfo.max"))
+        if case["T"] > 8 or case["K"] > 3:
+            t.append("wide(T>8 or K>3)")
         if case["kind"] == "multi":
             f = case["flags"]
             t.append("flags=" + "".join("1" if f[n] else "0" for n in ("wq", "wk", "wv", "wc")))
             B = case["E"][-1] if case["E"] else 1
             t.append("batch==heads" if B == case["H"] else "batch!=heads")
             t.append(f"H={case['H']}")
+            t.append("defaults=" + ("+".join(n for n in ("dv_default", "O_default") if case.get(n)) or "none"))
         return t
 
     def shrink(self, case):
@@ -849,6 +1153,11 @@ class C20(PropertyCheck):
             if case.get(key) != val:
                 c = dict(case)
                 c[key] = val
+                yield c
+        for key in ("layout", "dtype", "dv_default", "O_default"):
+            if key in case:
+                c = dict(case)
+                del c[key]
                 yield c
         if case["kind"] == "multi":
             for key in ("dq", "dk", "dv"):
